@@ -151,7 +151,7 @@ int main(int argc, char **argv)
 {
 	vh_args_t a;
 	vh_rng_t rng;
-	unsigned long pairs = 0, mism = 0, accp = 0, rejp = 0, nonzero = 0;
+	unsigned long pairs = 0, mism = 0, accp = 0, rejp = 0, nonzero = 0, repeats = 0;
 	int L;
 	static int base[2][32][NTOK];
 	long nprog = 0, pidx = 0;
@@ -215,13 +215,23 @@ int main(int argc, char **argv)
 						} else if ((pairs % 20011) == 0)
 							printf("[\"X\",\"%s\",%d,\"%s\",%d,%d,%d,0]\n", ptxt, pol, TOKNAME[t], prov, rc, expect);
 					}
+					/* a third of the cells: the same token once more on the same checker (what the callback did to the first jwt_t must not
+					 * reach the second verification either) */
+					if (!pg.ret && (pidx + t + pol) % 3 == 0) {
+						int rc2 = jwt_checker_verify(c, TOK[t]);
+						pairs++; repeats++;
+						if ((rc2 == 0) != (expect == 0)) {
+							mism++;
+							if (mism < 400) printf("[\"X\",\"%s; THEN THE SAME TOKEN AGAIN ON THE SAME CHECKER\",%d,\"%s\",%d,%d,%d,0]\n", ptxt, pol, TOKNAME[t], prov, rc2, expect);
+						}
+					}
 					jwt_checker_free(c);
 				}
 			}
 		}
 	}
 	(void)nprog;
-	printf("[\"STATS\",%lu,%lu,%lu,%lu,%lu]\n", pairs, mism, accp, rejp, nonzero);
+	printf("[\"STATS\",%lu,%lu,%lu,%lu,%lu,%lu]\n", pairs, mism, accp, rejp, nonzero, repeats);
 	for (int p = 0; p < 2; p++) jwks_free(sets[p]);
 	for (int t = 0; t < NTOK; t++) free(TOK[t]);
 	vh_key_free(&KH); vh_key_free(&KE);
